@@ -510,7 +510,12 @@ func (s *server) snapshotBytes() ([]byte, string, *kit.Failure) {
 // snap (wire world) round-trips the server document through the snapshot
 // encoding, compares, and keeps the decoded document as a twin that follows
 // every later remote change.
+var dbgHook func(s *server, when string)
+
 func (s *server) snap() *kit.Failure {
+	if dbgHook != nil {
+		dbgHook(s, "snap")
+	}
 	b, dead, f := s.snapshotBytes()
 	if f != nil || dead != "" || !s.w.wire {
 		return f
